@@ -49,9 +49,11 @@ def validate_qasm(src_paths: list[str], skip_files: Optional[list[str]] = None) 
     failed_files: list[tuple[str, Exception]] = []
 
     console = Console()
+    skipped_paths: list[str] = []
 
     def should_skip(filepath: str, content: str) -> bool:
         if filepath in skip_files:
+            skipped_paths.append(filepath)
             return True
 
         skip_tag = "// pyqasm: ignore"
@@ -100,7 +102,7 @@ def validate_qasm(src_paths: list[str], skip_files: Optional[list[str]] = None) 
             validate_qasm_file(item)
             checked += 1
 
-    checked -= len(skip_files)
+    checked -= len(skipped_paths)
 
     if checked == 0:
         console.print("No .qasm files present. Nothing to do.")
